@@ -69,7 +69,7 @@ def spec_violated(rep):
             return "after `%s` waiter %s is still asleep although the vigil counter is 0 and no CeaseVigil is in flight (%s)" % (op, w[1], line)
         if "unwoken" in line:
             return "`%s`: a broadcast with a zero/positive counter did not wake a sleeping waiter (%s)" % (op, line)
-        if line.startswith("closefail") and ("stuck" in line or "hangs" in line):
+        if line.startswith("closefail") and ("stuck" in line or "hang" in line):
             return ("Close() returned but the close never completes: WaitForGracefulClose got no answer within its budget after the "
                     "chronicler's final Close() failed (%s)" % line)
         if line.startswith("rpcs") and "vigdead=hang" in line:
